@@ -62,7 +62,8 @@ Qed.
 
 Lemma pass_step k i l ch : pass_from succ (S k) i l ch =
   if S (nth i l 0) <? n
-  then if index_of (S (nth i l 0)) l <? i
+  then if index_of (S (nth i l 0)) l =? i then PassLoop (nth i l 0)
+       else if index_of (S (nth i l 0)) l <? i
        then pass_from succ k (S i) (swap l (index_of (S (nth i l 0)) l) i) true
        else pass_from succ k (S i) l ch
   else pass_from succ k (S i) l ch.
@@ -79,7 +80,8 @@ Proof.
   assert (Hidx : i < index_of (S i) (seq 0 m ++ T)).
   { rewrite index_of_seq_app. cbn [Nat.leb andb Nat.add]. destruct (Nat.ltb_spec (S i) m); lia. }
   destruct (S i <? n).
-  - destruct (Nat.ltb_spec (index_of (S i) (seq 0 m ++ T)) i); [lia|].
+  - destruct (Nat.eqb_spec (index_of (S i) (seq 0 m ++ T)) i); [lia|].
+    destruct (Nat.ltb_spec (index_of (S i) (seq 0 m ++ T)) i); [lia|].
     rewrite IH by lia. f_equal. lia.
   - rewrite IH by lia. f_equal. lia.
 Qed.
@@ -87,7 +89,7 @@ Qed.
 (* the tail [c+b-1 .. c] behind the current head c+b: every element is swapped with the head *)
 Lemma tail_pass : forall b c P A ch, (forall p, In p P -> p < c) -> c + b < n ->
   pass_from succ b (length P + 1 + length A) (P ++ (c + b) :: A ++ rev (seq c b)) ch
-  = (P ++ c :: A ++ rev (seq (S c) b), ch || (0 <? b)).
+  = PassOk (P ++ c :: A ++ rev (seq (S c) b)) (ch || (0 <? b)).
 Proof.
   induction b as [|b IH]; intros c P A ch HP Hn.
   - cbn [pass_from seq rev]. rewrite Nat.add_0_r, orb_false_r. reflexivity.
@@ -100,6 +102,7 @@ Proof.
       replace (S (c + b)) with (c + S b) by lia. rewrite index_of_head. lia. }
     rewrite Hidx.
     destruct (Nat.ltb_spec (S (c + b)) n) as [_|]; [|lia].
+    destruct (Nat.eqb_spec (length P) (length P + 1 + length A)) as [|_]; [lia|].
     destruct (Nat.ltb_spec (length P) (length P + 1 + length A)) as [_|]; [|lia].
     rewrite swap_shape.
     replace (P ++ (c + b) :: A ++ (c + S b) :: rev (seq c b)) with (P ++ (c + b) :: (A ++ [c + S b]) ++ rev (seq c b))
@@ -117,7 +120,7 @@ Definition R (m : nat) : list nat := seq 0 m ++ rev (seq m (n - m)).
 Lemma R_length m : m <= n -> length (R m) = n.
 Proof. intros H. unfold R. rewrite app_length, rev_length, !seq_length. lia. Qed.
 
-Lemma pass_R m b : n - m = S b -> pass succ (R m) = (R (S m), 0 <? b).
+Lemma pass_R m b : n - m = S b -> pass succ (R m) = PassOk (R (S m)) (0 <? b).
 Proof.
   intros H. unfold pass. rewrite R_length by lia.
   unfold R at 1 2. rewrite H. rewrite seq_S, rev_app_distr. cbn [rev app].
@@ -141,7 +144,7 @@ Proof. unfold R. rewrite Nat.sub_diag. cbn [seq rev]. apply app_nil_r. Qed.
 
 (* exactly n - m passes are needed from R m *)
 Lemma sort_R : forall b m K, n - m = S b ->
-  sort_fuel succ K (R m) = if K <=? b then None else Some (seq 0 n).
+  sort_fuel succ K (R m) = if K <=? b then LimitError else Sorted (seq 0 n).
 Proof.
   induction b as [|b IH]; intros m K H.
   - destruct K as [|K]; [reflexivity|]. cbn [sort_fuel]. rewrite (pass_R m 0 H). cbn [Nat.ltb Nat.leb].
@@ -156,8 +159,8 @@ Proof. unfold R, rev_chain. cbn [seq app]. now rewrite Nat.sub_0_r. Qed.
 
 (* for EVERY pass limit K >= 0: the sink-first chain of K+1 leaves is refused with K passes and sorted with K+1 *)
 Lemma limit_rejects_all K :
-  sort_fuel (chain_succ (S K)) K (rev_chain (S K)) = None /\
-  sort_fuel (chain_succ (S K)) (S K) (rev_chain (S K)) = Some (seq 0 (S K)).
+  sort_fuel (chain_succ (S K)) K (rev_chain (S K)) = LimitError /\
+  sort_fuel (chain_succ (S K)) (S K) (rev_chain (S K)) = Sorted (seq 0 (S K)).
 Proof.
   rewrite <- R_0. split.
   - rewrite (sort_R (S K) K 0 K) by lia. now rewrite Nat.leb_refl.
@@ -166,7 +169,7 @@ Qed.
 
 (* more generally: n leaves sink-first are sorted iff the limit is at least n *)
 Lemma chain_passes n K : 1 <= n ->
-  sort_fuel (chain_succ n) K (rev_chain n) = if K <? n then None else Some (seq 0 n).
+  sort_fuel (chain_succ n) K (rev_chain n) = if K <? n then LimitError else Sorted (seq 0 n).
 Proof.
   intros Hn. rewrite <- R_0. rewrite (sort_R n (n - 1) 0 K) by lia.
   destruct (Nat.leb_spec K (n - 1)), (Nat.ltb_spec K n); try lia; reflexivity.
